@@ -11,6 +11,8 @@ VERIF = os.path.dirname(os.path.dirname(os.path.abspath(__file__)))
 REPO = os.environ.get('VERIF_REPO', '/repo')
 WORK = os.path.join(VERIF, '.work')
 FINDINGS_FILE = os.path.join(VERIF, 'known_findings.json')
+# self-test runs against a scratch copy of the repository must not touch the real evidence
+OUT = VERIF if REPO == '/repo' else os.path.join(WORK, 'alt')
 
 
 def use_repo():
@@ -89,7 +91,7 @@ def finish(ctx):
     for k, vs in sorted(seen_known.items()):
         out_lines.append('KNOWN-FINDING: property=%s %s [%s] (%d occurrence(s))' % (
             ctx.pid, known[k].get('what', vs[0]['what']), k, len(vs)))
-    rdir = os.path.join(VERIF, 'replays', ctx.pid)
+    rdir = os.path.join(OUT, 'replays', ctx.pid)
     for k, vs in sorted(new.items()):
         os.makedirs(rdir, exist_ok=True)
         h = hashlib.sha1(k.encode()).hexdigest()[:12]
@@ -108,8 +110,8 @@ def finish(ctx):
           'coverage': cov, 'assumptions': ctx.assumptions, 'wall_s': round(ctx.elapsed(), 2),
           'violations': len(new),
           'known_findings_seen': sorted(seen_known)}
-    os.makedirs(os.path.join(VERIF, 'evidence'), exist_ok=True)
-    with open(os.path.join(VERIF, 'evidence', ctx.pid + '.json'), 'w') as f:
+    os.makedirs(os.path.join(OUT, 'evidence'), exist_ok=True)
+    with open(os.path.join(OUT, 'evidence', ctx.pid + '.json'), 'w') as f:
         json.dump(ev, f, indent=1, default=str)
     shutil.rmtree(ctx.work, ignore_errors=True)
     for l in out_lines:
